@@ -15,7 +15,8 @@ sys.path.insert(0, os.path.dirname(os.path.dirname(os.path.abspath(__file__))))
 from sa import normalize  # noqa: E402
 
 root = sys.argv[1] if len(sys.argv) > 1 else "/repo"
-out = {"locals": {}, "functions": [], "module_names": {}, "class_attrs": {}}
+out = {"locals": {}, "functions": [], "module_names": {}, "class_attrs": {},
+       "fingerprints": {}}
 pkg = os.path.join(root, "ebpfcat")
 for dp, dn, fn in sorted(os.walk(pkg)):
     dn[:] = sorted(d for d in dn if d != "__pycache__")
@@ -31,6 +32,7 @@ for dp, dn, fn in sorted(os.walk(pkg)):
         normalize.canon_shapes(tree)
         normalize.canon_flow(tree)
         normalize.canon_shapes(tree)
+        normalize.fold_constants(tree)
         names = set()
         for st in tree.body:
             if isinstance(st, (ast.FunctionDef, ast.AsyncFunctionDef,
@@ -72,6 +74,7 @@ for dp, dn, fn in sorted(os.walk(pkg)):
             names = normalize.local_order(func)
             if names:
                 out["locals"][q] = names
+                out["fingerprints"][q] = normalize.local_fingerprints(func)
 out["functions"].sort()
 import hashlib
 h = hashlib.sha1()
